@@ -286,6 +286,10 @@ def r4_structure(P, rep, ctx):
             cut_ok = False
     # a directory entry (neither file nor symlink) still walks its full chain
     dir_reaches = bool(segl) and any(n.idx in g.reach_consistent([], labels_block=leaf, start_edges=[(L, "iter")]) for n in segl)
+    # no entry is skipped: every iteration that does not raise walks the chain loop before the next entry is taken
+    every_entry = bool(segl) and f.hit_before(L, nodes=[n.idx for n in segl], src_edge=(L, "iter"))
+    rep.check(every_entry, "C19.R4", fi.qual, "every visited entry is recorded (no iteration leaves the loop body before the directory chain is built)", fi.loc(), construct="no skipped entries",
+              message="dir_hashsums skips some entries (a `continue` / early exit before the entry is recorded): e.g. dangling symlinks vanish from the tree and an outside-pointing one is no longer rejected", path=f.witness(L, [n.idx for n in segl], src=L) if not every_entry else None)
     rep.check(ok_chain and dir_reaches, "C19.R4", fi.qual, "the directory chain of every entry is materialised as nested dicts (empty directories appear)", fi.loc(), construct="directory chain", message="dir_hashsums does not create the nested dict chain for every entry")
     rep.check(cut_ok and dir_reaches, "C19.R4", fi.qual, "only files and symlinks are split into (parent chain, name); a directory contributes its full path (so empty directories appear)", fi.loc(),
               construct="relpath cut only for files/symlinks", message="dir_hashsums cuts the last component off every entry, directories included: a directory is only recorded as parent of something below it, so empty directories vanish from the tree")
